@@ -53,6 +53,16 @@ func newC31DeepWorld() world {
 	return w
 }
 
+// newC31FineWorld has sub-window time resolution: gaps of w/8 and 7w/8 (whose
+// sums also give w/4, w, 9w/8, ...), so that strobes closer together than any
+// fraction of the window down to w/8, followed by a gap just short of the
+// window, are enumerated with an attentive or idle consumer.
+func newC31FineWorld() world {
+	w := newC31World().(*c31world)
+	w.alphabet = []string{"strobe", "adv-eighth", "adv-7eighths", "consume"}
+	return w
+}
+
 func (w *c31world) menu() []string {
 	if w.alphabet != nil {
 		return w.alphabet
@@ -89,6 +99,10 @@ func (w *c31world) do(ev string) {
 			w.strobes++
 			w.deadline = time.Since(w.start) + c31Window
 		}
+	case "adv-eighth":
+		w.advance(c31Window / 8)
+	case "adv-7eighths":
+		w.advance(7 * c31Window / 8)
 	case "adv-half":
 		w.advance(c31Window / 2)
 	case "adv-one":
@@ -265,14 +279,28 @@ func TestC31(t *testing.T) {
 	}
 	deep := exploreBubble(t, newC31DeepWorld, deepDepth, deadline, visit)
 	// (the deep leg is small and runs first so that a time cap never cuts it)
+	// Fine leg: sub-window gaps.
+	fineDepth := 7
+	if vr.Thorough() {
+		fineDepth = 9
+	}
+	if os.Getenv("VERIF_SKIP_BUBBLE") != "" {
+		fineDepth = 1
+	}
+	fine := exploreBubble(t, newC31FineWorld, fineDepth, deadline, visit)
+	r.Set("bubble_fine_leg_depth", fineDepth)
+	r.Set("bubble_fine_leg_sequences", fine.Sequences)
+	if fine.Capped {
+		notExhaustive(r, fmt.Sprintf("E-bubble fine leg stopped by its time budget after %d sequences of depth %d", fine.Sequences, fineDepth))
+	}
 	st := exploreBubble(t, newC31World, depth, deadline, visit)
-	r.Set("bubble_sequences", st.Sequences+deep.Sequences)
-	r.Set("bubble_events", st.Events+deep.Events)
+	r.Set("bubble_sequences", st.Sequences+deep.Sequences+fine.Sequences)
+	r.Set("bubble_events", st.Events+deep.Events+fine.Events)
 	r.Set("bubble_depth", depth)
 	r.Set("bubble_deep_leg_depth", deepDepth)
 	r.Set("bubble_deep_leg_sequences", deep.Sequences)
-	r.Set("divergent_replays", st.Divergent+deep.Divergent)
-	r.Set("bubble_teardown_hangs", st.Hangs+deep.Hangs)
+	r.Set("divergent_replays", st.Divergent+deep.Divergent+fine.Divergent)
+	r.Set("bubble_teardown_hangs", st.Hangs+deep.Hangs+fine.Hangs)
 	if st.Capped {
 		notExhaustive(r, fmt.Sprintf("E-bubble stage stopped by its time budget after %d sequences of depth %d", st.Sequences, depth))
 	}
@@ -280,7 +308,7 @@ func TestC31(t *testing.T) {
 		notExhaustive(r, fmt.Sprintf("E-bubble deep leg stopped by its time budget after %d sequences of depth %d", deep.Sequences, deepDepth))
 	}
 	vs := vschedC31(t, r)
-	rule := fmt.Sprintf("stage 1 (E-bubble, unmodified pkg/state, virtual time, window w=%v): every sequence of <= %d events over {strobe, advance w/2, advance w, advance 2w, non-blocking consume, terminate}; after every event the buffered-signal count is compared with a reference model of the statement. Deep leg: every sequence of <= %d events over the reduced alphabet {strobe, advance w, consume} (consumer idle over several complete cycles, then consuming). Non-trivial = a signal reached the consumer or two strobes fell inside one window; distinct by event sequence.", c31Window, depth, deepDepth)
+	rule := fmt.Sprintf("stage 1 (E-bubble, unmodified pkg/state, virtual time, window w=%v): every sequence of <= %d events over {strobe, advance w/2, advance w, advance 2w, non-blocking consume, terminate}; after every event the buffered-signal count is compared with a reference model of the statement. Deep leg: every sequence of <= %d events over the reduced alphabet {strobe, advance w, consume} (consumer idle over several complete cycles, then consuming). Fine leg: every sequence of <= %d events over {strobe, advance w/8, advance 7w/8, consume} (sub-window gaps: a signal while the last strobe is less than a window old, or a second signal for one burst, contradicts the model). Non-trivial = a signal reached the consumer or two strobes fell inside one window; distinct by event sequence.", c31Window, depth, deepDepth, fineDepth)
 	if vs != "" {
 		rule += " " + vs
 	} else {
